@@ -38,8 +38,44 @@ T3 == << "local", "x", "=", "1", "x", "+=", "1", "x", "..=", "'s'",
 \* T4: separators after LAST statements (`return 1;`, `break;`), operands touching `..`, nested closing brackets
 T4 == << "do", "return", "1", ";", "end", "while", "a", "do", "break", ";", "end",
          "a", "=", "b", "..", "2", "..", "c", "..", "'s'", "a", "=", "t", "[", "t", "[", "1", "]", "]", ";",
-         "if", "a", "then", "return", ";", "end", "return", "a", ",", "b", ";" >>
-Templates == << T1, T2, T3, T4 >>
+         "if", "a", "then", "return", ";", "end",
+         "a", "=", "1e999", "(", "f", ")", "(", "a", ")",       \* a numeral ends its statement: `(f)(a)` is the next one
+         "return", "a", ",", "b", ";" >>
+\* T5 / T6: Luau TYPE syntax.  "<T" and "T>" are not tokens: they bracket the tokens of one type annotation / type
+\* expression (C03's weaker clause: inside these regions only parentheses and spacing may differ; everywhere else the
+\* byte-for-byte clause applies).  Unmark removes them and returns the token-index spans.
+T5raw == << "local", "x", ":", "<T", "number", "T>", "=", "1",
+            "local", "y", ":", "<T", "{", "a", ":", "number", ",", "[", "string", "]", ":", "boolean", "}", "?", "T>", "=", "nil",
+            "local", "function", "f", "<", "T", ">", "(", "a", ":", "<T", "T", "T>", ",", "...", ":", "<T", "number", "T>", ")", ":", "<T", "(", "T", ",", "number", ")", "T>",
+              "return", "a", "::", "<T", "any", "T>", ",", "1", "end",
+            "type", "A", "=", "<T", "{", "x", ":", "number", ",", "y", ":", "string", "?", "}", "T>",
+            "export", "type", "B", "<", "T", ">", "=", "<T", "(", "T", ")", "->", "(", "T", ",", "...", "any", ")", "T>",
+            "for", "i", ":", "<T", "number", "T>", "=", "1", ",", "2", "do", "end",
+            "for", "k", ":", "<T", "string", "T>", ",", "v", ":", "<T", "any", "T>", "in", "pairs", "(", "y", ")", "do", "end",
+            "return", "x" >>
+T6raw == << "type", "U", "=", "<T", "\"a\"", "|", "\"b\"", "|", "nil", "T>",
+            "type", "I", "=", "<T", "A", "&", "{", "z", ":", "(", "number", ")", "}", "T>",
+            "type", "F", "=", "<T", "(", "a", ":", "number", ",", "b", ":", "string", ")", "->", "(", ")", "T>",
+            "local", "g", "=", "function", "(", "a", ":", "<T", "number", "?", "T>", ")", ":", "<T", "...", "number", "T>", "return", "a", "end",
+            "local", "z", "=", "(", "g", "::", "<T", "any", "T>", ")", "::", "<T", "M", ".", "B", "<", "number", ">", "T>",
+            "local", "v", ":", "<T", "typeof", "(", "z", ")", "T>", "=", "z",
+            "local", "w", ":", "<T", "(", "(", "number", ")", "->", "number", ")", "?", "T>", "=", "nil",
+            "type", "G", "<", "K", ",", "V", "=", "<T", "K", "T>", ">", "=", "<T", "{", "[", "K", "]", ":", "V", "}", "T>",
+            "type", "P", "<", "R", "...", ">", "=", "<T", "(", "R", "...", ")", "->", "(", "...", "any", ")", "T>",
+            "return", "v", ",", "w" >>
+RECURSIVE Unmark(_, _, _, _, _)
+Unmark(raw, k, toks, open, spans) ==
+  IF k > Len(raw) THEN [toks |-> toks, spans |-> spans]
+  ELSE IF raw[k] = "<T" THEN Unmark(raw, k + 1, toks, Len(toks) + 1, spans)
+  ELSE IF raw[k] = "T>" THEN Unmark(raw, k + 1, toks, 0, spans \cup {<<open, Len(toks)>>})
+  ELSE Unmark(raw, k + 1, Append(toks, raw[k]), open, spans)
+U5 == Unmark(T5raw, 1, <<>>, 0, {})
+U6 == Unmark(T6raw, 1, <<>>, 0, {})
+T5 == U5.toks
+T6 == U6.toks
+Templates == << T1, T2, T3, T4, T5, T6 >>
+\* token-index spans <<lo, hi>> of the type regions of each template
+TypeSpans == << {}, {}, {}, {}, U5.spans, U6.spans >>
 
 \* ---- trivia kinds
 \* (new kinds are appended: the indices of the first 14 are referred to by recorded replay files)
@@ -76,4 +112,20 @@ Place(toks, gap, i, tr) ==
              ELSE IF inner /\ Len(tr) >= 2 /\ SubSeq(tr, 1, 2) = "--" /\ LastCh(toks[i]) = "-" THEN " " \o tr     \* `- --c` not `---c`
              ELSE tr IN
   [gap EXCEPT ![i] = tr2]
+\* ---- byte extent of the type regions of a rendered placement.  A region <<lo, hi>> reaches from the byte after token
+\* lo - 1 to the byte before token hi + 1: the spacing between the annotation and its neighbours belongs to it.
+RECURSIVE StartsAcc(_, _, _, _)
+StartsAcc(toks, gap, i, acc) ==        \* acc[i] = 1-based offset of the first byte of token i (i = Len + 1: one past the last token)
+  IF i > Len(toks) + 1 THEN acc
+  ELSE StartsAcc(toks, gap, i + 1, Append(acc, IF i = 1 THEN Len(gap[0]) + 1 ELSE acc[i - 1] + Len(toks[i - 1]) + Len(gap[i - 1])))
+RegionBytes(toks, gap, st, sp) ==
+  LET from == st[sp[1] - 1] + Len(toks[sp[1] - 1]) IN    \* every region follows some token (`:`, `=`, `::`)
+  LET to == IF sp[2] = Len(toks) THEN st[sp[2]] + Len(toks[sp[2]]) + Len(gap[sp[2]]) - 1 ELSE st[sp[2] + 1] - 1 IN
+  << from, to >>
+RECURSIVE SetToSeq(_)
+SetToSeq(S) == IF S = {} THEN <<>> ELSE LET x == CHOOSE x \in S : \A y \in S : x[1] <= y[1] IN <<x>> \o SetToSeq(S \ {x})
+TypeSpanSeqs == [tp \in 1..Len(Templates) |-> SetToSeq(TypeSpans[tp])]
+ByteSpans(tp, toks, gap) ==
+  LET S == TypeSpanSeqs[tp] IN
+  IF Len(S) = 0 THEN <<>> ELSE LET st == StartsAcc(toks, gap, 1, <<>>) IN [k \in 1..Len(S) |-> RegionBytes(toks, gap, st, S[k])]
 =============================================================================
